@@ -45,9 +45,21 @@ def check(prog: Program, tier: str) -> Result:
 
 def _r6_1(prog: Program, res: Result) -> None:
     fn = prog.func("main", "format_files")
+    # variables bound to a worker pool: `with mp.Pool(..) as X` / X = Pool(..) / ProcessPoolExecutor(..)
+    pools = set()
+    for n in walk_own(fn.node):
+        if isinstance(n, (ast.With, ast.AsyncWith)):
+            for item in n.items:
+                d = prog.dotted(item.context_expr.func) if isinstance(item.context_expr, ast.Call) else None
+                if d and d.split(".")[-1] in ("Pool", "ThreadPool", "ProcessPoolExecutor", "ThreadPoolExecutor") and isinstance(item.optional_vars, ast.Name):
+                    pools.add(item.optional_vars.id)
+        if isinstance(n, ast.Assign) and isinstance(n.value, ast.Call) and isinstance(n.targets[0], ast.Name):
+            d = prog.dotted(n.value.func)
+            if d and d.split(".")[-1] in ("Pool", "ThreadPool", "ProcessPoolExecutor", "ThreadPoolExecutor"):
+                pools.add(n.targets[0].id)
     pool_calls = [c for c in prog.calls_in(fn) if isinstance(c.func, ast.Attribute) and c.func.attr in (
         "map", "starmap", "imap", "imap_unordered", "apply_async", "map_async", "starmap_async", "apply", "submit")
-        and isinstance(c.func.value, ast.Name) and "pool" in c.func.value.id.lower()]
+        and isinstance(c.func.value, ast.Name) and c.func.value.id in pools]
     if not pool_calls:
         res.bad("R6.1", fn.loc(), fn.fq, "pool dispatch", "no pool.map/starmap call found (dispatch restructured)")
         return
